@@ -49,6 +49,9 @@ func shapeDoc(s map[string]any, r *rand.Rand) *sbom.Document {
 		case "badenum":
 			bad := sbom.DocumentType_SBOMType(99)
 			d.Metadata.DocumentTypes = []*sbom.DocumentType{{Type: &bad}}
+		case "negenum": // protobuf enums are int32: negative numbers survive decoding
+			bad := sbom.DocumentType_SBOMType(-1)
+			d.Metadata.DocumentTypes = []*sbom.DocumentType{{Type: &bad}}
 		}
 		switch str(s, "extra") {
 		case "niltool":
@@ -81,6 +84,13 @@ func shapeDoc(s map[string]any, r *rand.Rand) *sbom.Document {
 			a.Hashes = map[int32]string{99: "x", 1: "y"}
 			a.Identifiers = map[int32]string{99: "x"}
 			a.ExternalReferences = []*sbom.ExternalReference{{Type: 999, Url: "u"}}
+			nl.Nodes = []*sbom.Node{a, b, c}
+		case "negenum":
+			a.Type = -1
+			a.PrimaryPurpose = []sbom.Purpose{-3}
+			a.Hashes = map[int32]string{-1: "x", 1: "y"}
+			a.Identifiers = map[int32]string{-2: "x"}
+			a.ExternalReferences = []*sbom.ExternalReference{{Type: -1, Url: "u", Hashes: map[int32]string{-5: "h"}}}
 			nl.Nodes = []*sbom.Node{a, b, c}
 		case "rich":
 			nl.Nodes = []*sbom.Node{randNode(r, "a", 0.9), b, randNode(r, "c", 0.9)}
@@ -125,6 +135,8 @@ func shapeDoc(s map[string]any, r *rand.Rand) *sbom.Document {
 			nl.Edges = []*sbom.Edge{{Type: ct, From: "a"}, {Type: 99, From: "b", To: []string{"c"}}}
 		case "selfloop":
 			nl.Edges = []*sbom.Edge{{Type: ct, From: "a", To: []string{"a"}}, {Type: sbom.Edge_dependsOn, From: "b", To: []string{"b"}}}
+		case "negtype":
+			nl.Edges = []*sbom.Edge{{Type: ct, From: "a", To: []string{"b"}}, {Type: -1, From: "b", To: []string{"c"}}, {Type: -2147483648, From: "a", To: []string{"c"}}}
 		}
 		switch str(s, "roots") {
 		case "one":
